@@ -121,7 +121,8 @@ struct Model {
 		switch (c.mode) {
 		case POP_ON: case PAINT_ON:	// (f)(1)(x): both memories are erased, (f)(1)(ii): base row 15
 			c.erase(0); c.erase(1); c.row = ROWS - 1; c.col = 0; c.wrote_last_col = false; break;
-		case ROLL_UP:	// (f)(1)(iv): a smaller window loses its top rows
+		case ROLL_UP:	// (f)(1)(iv): a smaller window loses its top rows; a base row too close to the top for a larger one moves down as for a PAC (EIA-608-B C.4)
+			if (c.row + 1 < depth) move_window(c, depth - 1);
 			for (int k = depth; k < c.depth; ++k) { int r = c.row - k; if (r >= 0) for (int x = 0; x < COLS; ++x) { if (c.D()[r][x].set) c.changed = true; c.D()[r][x] = Cell(); } }
 			break;
 		default: break;
